@@ -11,7 +11,7 @@ D-d  R-SENT over the Turtle scanner, twins of the prefix expansion, R-STALE (no 
 D-e  the prefix table reaches every expansion site (known finding: literal datatypes only know four hard-coded prefixes).
 Undecided: agreement with a standard Turtle parser on every layout (value level)."""
 from ..report import Floor
-from ..rules import scanner, sentinel, twin
+from ..rules import scanner, sentinel, twin, memo
 from .. import exceptions
 
 
@@ -27,6 +27,8 @@ def check(ctx, tier):
     o_st, n_st = ctx.attempt(scanner.stale_snapshots, ctx, "D-d", default=([], 0))
     obs += o_st
     obs += ctx.attempt(scanner.prefix_table_reaches_datatypes, ctx, "D-e", default=[])
+    obs += ctx.attempt(lambda c, cl: memo.check(c, cl)[0], ctx, "D-e", default=[])
+    obs += ctx.attempt(scanner.ttl_token_table, ctx, "D-f", default=[])
     exceptions.apply(obs)
     return {"obs": obs, "floors": [Floor("automaton cells extracted", len(table), 16), Floor("find/rfind sites examined", n_s, 12),
                                    Floor("loops examined for stale snapshots", n_st, 5)],
